@@ -11,7 +11,7 @@ CONF = {
                 'modelled rather than verified, corresponded on every run: encoding/json struct decoding rules incl. member-name folding, '
                 'sigs.k8s.io/yaml scalar-to-string coercion, strings.ToLower on annotation keys, the k8s qualified-name regular expressions, '
                 'golang.org/x/mod/semver on the released table (C06)'],
-    'assumptions': ['documents with two members naming the same field (exact or case-variant duplicates) are outside the modelled space',
+    'assumptions': ['documents with two members naming the same field under different spellings (case-variant duplicates: encoding/json keeps the last one) are outside the modelled space; exact duplicates are modelled (has_dup) and generated',
                     'coerced number texts are a function of the value only for integer literals within [-2^63, 2^64) and short decimals; the harness '
                     'stays inside that space where the target is a string',
                     'strings in documents are valid UTF-8 (the typed route is not restricted)'],
@@ -24,7 +24,7 @@ CHECK = {
             'it decodes (only known members, well-typed) to a Spec satisfying the declarative predicate WF transcribed from the property text '
             '(accepts_iff_WF, validate_iff_WF); it never panics (accepts_total, validate_total); every single defect of 22 kinds, at the spec level, at '
             'any device of any number of devices and at any element of any list, makes the Spec not WF and hence rejected with an error '
-            '(single_defect_rejects over the inductive Defect with one position-quantified constructor per kind, unknown_key_rejects for any object of the document tree); the oracle wf_b decides WF '
+            '(single_defect_rejects over the inductive Defect with one position-quantified constructor per kind, unknown_key_rejects for any object of the document tree, duplicate_key_rejects for two members of one name in any object); the oracle wf_b decides WF '
             '(wf_b_iff). The model is tied to the code on every run: well-formed Specs over all pairs of the 32 optional fields, boundary values, one '
             'defect of each kind at every position, and a malformed-document stream, each as JSON and YAML through cdi.ReadSpec, '
             'Cache.Refresh+GetErrors and (typed) Cache.WriteSpec, plus cdi.ParseSpec\'s decoded value against the model decoder.',
